@@ -44,11 +44,23 @@ func addAxiom(key string, triggers []string, text string) {
 }
 
 func declConst(name, sort string) T {
-	q := quoteSym(name)
-	if _, ok := symbols[q]; !ok {
-		symbols[q] = &symInfo{fmt.Sprintf("(declare-const %s %s)", q, sort)}
+	for i := 0; ; i++ {
+		n := name
+		if i > 0 {
+			n = fmt.Sprintf("%s~%d", name, i)
+		}
+		q := quoteSym(n)
+		want := fmt.Sprintf("(declare-const %s %s)", q, sort)
+		si, ok := symbols[q]
+		if !ok {
+			symbols[q] = &symInfo{want}
+			return T{q, sort}
+		}
+		if si.decl == want {
+			return T{q, sort}
+		}
+		// same name with another sort (e.g. a parameter name reused by another function): pick a variant
 	}
-	return T{q, sort}
 }
 
 func declFun(name string, argSorts []string, res string) string {
